@@ -913,8 +913,24 @@ class Exec:
     def resolve_place(self, st, fid, place):
         """-> (frame id | 'val', local | value, path tuple) after resolving derefs."""
         cur = (fid, place['local'], ())
+        pending = None   # (window start, window ref) right after dereferencing a sub-slice reference
         for e in place['proj']:
             k = e['k']
+            if pending is not None and k in ('index', 'constindex'):
+                start, wref = pending
+                pending = None
+                if k == 'index':
+                    iv = st.frames[fid].get(e['local'], UNDEF)
+                    ix = (iv[1] + start) if iv[0] == 'c' else mk_bin('Add', iv, C(start, 'usize'), 'usize', 'usize')
+                else:
+                    if e['from_end']:
+                        raise Uncertified("constindex from end")
+                    ix = e['offset'] + start
+                cur = (cur[0], cur[1], cur[2] + (ix,))
+                continue
+            if pending is not None:
+                cur = ('val', self.load(st, pending[1]), ())
+                pending = None
             if k == 'deref':
                 ref = self.read_loc(st, cur)
                 ref = self.simplify_ref(ref)
@@ -923,7 +939,10 @@ class Exec:
                     cur = ('val', self.load(st, ref), ())
                     continue
                 tgt, win = ref[1], ref[2]
-                if win is not None:
+                if win is not None and tgt[0] != 'val':
+                    cur = (tgt[0], tgt[1], tgt[2])
+                    pending = (win[0], ref)
+                elif win is not None:
                     cur = ('val', self.load(st, ref), ())
                 elif tgt[0] == 'val':
                     cur = ('val', tgt[1], ())
@@ -942,6 +961,8 @@ class Exec:
                 cur = (cur[0], cur[1], cur[2] + (('dc', e['variant']),))
             else:
                 raise Uncertified("place projection %s" % k)
+        if pending is not None:
+            cur = ('val', self.load(st, pending[1]), ())
         return cur
 
     def simplify_ref(self, ref):
